@@ -32,7 +32,8 @@ def seeded_table(root, label):
         first=(own[-1]['first_violation'] if own else '')[:60]
         others=sorted(set([x['check'] for x in det if x['check']!=sid[:3] and x['verdict']=='caught']+[c for c in matrix.get(sid,[]) if c!=sid[:3]]))
         note=m.get('strengthened','')
-        summ=m.get('one_line') or m['summary'].split('. ')[0][:140]
+        summ=(m.get('one_line') or m['summary'].split('. ')[0][:140]).replace('|','\\|')
+        first=first.replace('|','\\|')
         out+=f"| {sid} | {summ} | {ov}{(' — '+first) if first else ''}{(' ('+note+')') if note else ''} | {', '.join(others) or '-'} |\n"
     return out
 parts=sorted(glob.glob(f'{V}/design_src/*.md'))
